@@ -125,12 +125,66 @@ def PkAccepted (cfg : Cfg) (st : St) (r : Req) (pkPerms : Nat) : Prop :=
   st.cache = some ⟨r.user, r.pk.key, .ok, pkPerms⟩ ∨
   (cacheGet st.cache r.user r.pk.key = none ∧ r.cb = .accept pkPerms ∧ cfg.saOk pkPerms = true)
 
+/-- every Challenge call of the keyboard-interactive callback was answered: the i-th packet after
+    the request is a well-formed INFO_RESPONSE with exactly as many answers as the i-th call asked
+    questions -/
+def RoundsAnswered : List Nat → List Follow → Prop
+  | [], _ => True
+  | _ :: _, [] => False
+  | q :: qs, f :: rest => f = .infoResp q ∧ RoundsAnswered qs rest
+
+/-- the GSS-API exchange ran to completion: every AcceptSecContext call but the last succeeded and
+    asked to continue and was followed by a token packet; the last one succeeded without asking to
+    continue and was followed by the MIC packet -/
+def GssDone : List GssStep → List Follow → Prop
+  | [], _ => False
+  | _ :: _, [] => False
+  | s :: ss, f :: rest =>
+    s.err = false ∧ ((s.cont = true ∧ isToken f = true ∧ GssDone ss rest) ∨ (s.cont = false ∧ f = .gssMic))
+
+theorem kbdRounds_ok {qs : List Nat} {fl : List Follow} (h : (kbdRounds qs fl).1 = true) : RoundsAnswered qs fl := by
+  induction qs generalizing fl with
+  | nil => trivial
+  | cons q qs ih =>
+    cases fl with
+    | nil => simp [kbdRounds] at h
+    | cons f rest =>
+      unfold kbdRounds at h
+      by_cases ha : answers q f = true
+      · simp [ha] at h
+        refine ⟨?_, ih h⟩
+        cases f <;> simp [answers] at ha
+        rw [ha]
+      · simp [ha] at h
+
+theorem gssExchange_mic {ss : List GssStep} {fl : List Follow} (h : (gssExchange ss fl).1 = .mic) : GssDone ss fl := by
+  induction ss generalizing fl with
+  | nil => simp [gssExchange] at h
+  | cons s ss ih =>
+    unfold gssExchange at h
+    cases he : s.err <;> simp [he] at h
+    cases fl with
+    | nil => simp at h
+    | cons f rest =>
+      simp only [] at h
+      cases hc : s.cont <;> simp [hc] at h
+      · by_cases hm : f = .gssMic
+        · exact ⟨he, Or.inr ⟨hc, hm⟩⟩
+        · simp [hm] at h
+      · by_cases ht : isToken f = true
+        · simp [ht] at h
+          exact ⟨he, Or.inl ⟨hc, ht, ih h⟩⟩
+        · simp [ht] at h
+
 /-- request `r`, arriving in state `st`, satisfies its authentication method and yields permissions `p` -/
 def Satisfied (cfg : Cfg) (st : St) (r : Req) (p : Nat) : Prop :=
   (r.method = "none" ∧ cfg.noClientAuth = true ∧ st.partialRet = false ∧
      ((cfg.noClientAuthCb = true ∧ r.cb = .accept p) ∨ (cfg.noClientAuthCb = false ∧ p = 0))) ∨
   (r.method = "password" ∧ st.cbs.pw = true ∧ r.pwShape = .ok ∧ r.cb = .accept p) ∨
-  (r.method = "keyboard-interactive" ∧ st.cbs.kbd = true ∧ r.cb = .accept p) ∨
+  (r.method = "keyboard-interactive" ∧ st.cbs.kbd = true ∧ RoundsAnswered r.kbdRounds r.follow ∧ r.cb = .accept p) ∨
+  (r.method = "gssapi-with-mic" ∧ st.cbs.gss = true ∧ r.gss.payload = .krb ∧
+     (∃ f rest, r.follow = f :: rest ∧ isToken f = true ∧ GssDone r.gss.steps rest) ∧ r.gss.micOk = true ∧
+     r.cb = .accept p) ∨
   (r.method = "publickey" ∧ st.cbs.pk = true ∧ ∃ pkPerms, PkGood cfg r pkPerms ∧ PkAccepted cfg st r pkPerms ∧
      ((cfg.verifiedCb = true ∧ r.vcb = .accept p) ∨ (cfg.verifiedCb = false ∧ p = pkPerms)))
 
@@ -220,16 +274,173 @@ theorem methodPhase_ok {cfg : Cfg} {st st' : St} {r : Req} {evs : List Ev} {perm
         simp at hm
         unfold kbdPhase at h
         cases h1 : st.cbs.kbd <;> simp [h1] at h
+        cases hk : (kbdRounds r.kbdRounds r.follow).1 <;> simp [hk] at h
         have := split_ok h.2.2.2
         rw [h.2.2.1] at this
-        exact ⟨hm, rfl, this⟩
+        exact ⟨hm, rfl, kbdRounds_ok hk, this⟩
       · split at h
         · rename_i hm
-          right; right; right
+          right; right; right; right
           simp at hm
           obtain ⟨a, b⟩ := pkPhase_ok hu h
           exact ⟨hm, a, b⟩
-        · simp at h
+        · split at h
+          · rename_i hm
+            right; right; right; left
+            simp at hm
+            unfold gssPhase at h
+            cases h1 : st.cbs.gss <;> simp [h1] at h
+            cases hp : r.gss.payload <;> simp [hp] at h
+            cases hf : r.follow with
+            | nil => simp [hf] at h
+            | cons f rest =>
+              simp only [hf] at h
+              cases ht : isToken f <;> simp [ht] at h
+              cases hx : (gssExchange r.gss.steps rest).1 <;> simp [hx] at h
+              cases hmo : r.gss.micOk <;> simp [hmo] at h
+              have := split_ok h.2.2.2
+              rw [h.2.2.1] at this
+              exact ⟨hm, rfl, rfl, ⟨f, rest, rfl, ht, gssExchange_mic hx⟩, rfl, this⟩
+          · simp at h
+
+/-! ## shapes of the keyboard-interactive and gssapi-with-mic branches -/
+
+/-- the events of the two exchanges other than the callback record of keyboard-interactive -/
+def auxEv (st : St) (r : Req) : Ev → Bool
+  | .sendInfoReq _ => true
+  | .sendGssResponse => true
+  | .sendGssToken => true
+  | .gssAccept => true
+  | .gssVerifyMic => true
+  | .gssDelete => true
+  | .cbGssAllow g u o => g == st.gen && u == st.user && o == r.cb && st.cbs.gss && r.method == "gssapi-with-mic"
+  | _ => false
+
+theorem kbdRounds_evs (st : St) (r : Req) (qs : List Nat) (fl : List Follow) :
+    (kbdRounds qs fl).2.1.all (auxEv st r) = true := by
+  induction qs generalizing fl with
+  | nil => simp [kbdRounds]
+  | cons q qs ih =>
+    cases fl with
+    | nil => simp [kbdRounds, auxEv]
+    | cons f rest =>
+      unfold kbdRounds
+      split
+      · simp only [List.all_cons, auxEv, Bool.true_and]; exact ih rest
+      · simp [auxEv]
+
+theorem gssExchange_evs (st : St) (r : Req) (ss : List GssStep) (fl : List Follow) :
+    (gssExchange ss fl).2.1.all (auxEv st r) = true := by
+  induction ss generalizing fl with
+  | nil => simp [gssExchange, auxEv]
+  | cons s ss ih =>
+    unfold gssExchange
+    split
+    · simp [auxEv]
+    · have hev : (Ev.gssAccept :: (if s.out then [Ev.sendGssToken] else [])).all (auxEv st r) = true := by
+        cases s.out <;> simp [auxEv]
+      cases fl with
+      | nil => simpa using hev
+      | cons f rest =>
+        simp only []
+        split
+        · split
+          · simp only [List.all_append, ih rest, Bool.and_true]; simpa using hev
+          · simpa using hev
+        · split <;> simpa using hev
+
+theorem kbdPhase_cases (st : St) (r : Req) :
+    (st.cbs.kbd = false ∧ kbdPhase st r = .res st [] 0 .fail) ∨
+    (st.cbs.kbd = true ∧ ∃ x, x.all (auxEv st r) = true ∧
+      (kbdPhase st r = .res st (Ev.cbKbd st.gen st.user r.cb :: x) 0 .fail ∨
+       ((kbdRounds r.kbdRounds r.follow).1 = true ∧
+        kbdPhase st r = .res st (Ev.cbKbd st.gen st.user r.cb :: x) (r.cb.split st.attempts).1 (r.cb.split st.attempts).2))) := by
+  unfold kbdPhase
+  cases h : st.cbs.kbd
+  · simp
+  · right
+    refine ⟨rfl, (kbdRounds r.kbdRounds r.follow).2.1, kbdRounds_evs st r _ _, ?_⟩
+    cases hk : (kbdRounds r.kbdRounds r.follow).1
+    · exact Or.inl (by simp [hk])
+    · exact Or.inr ⟨rfl, by simp [hk]⟩
+
+theorem gssPhase_cases (st : St) (r : Req) (hm : r.method = "gssapi-with-mic") :
+    ∃ x, x.all (auxEv st r) = true ∧
+      (gssPhase st r = .hard x ∨ gssPhase st r = .res st x 0 .fail ∨
+       (st.cbs.gss = true ∧ gssPhase st r = .res st x (r.cb.split st.attempts).1 (r.cb.split st.attempts).2)) := by
+  unfold gssPhase
+  cases h : st.cbs.gss
+  · exact ⟨[], rfl, Or.inr (Or.inl (by simp))⟩
+  · simp only [Bool.not_true, Bool.false_eq_true, if_false]
+    cases r.gss.payload
+    · exact ⟨[], rfl, Or.inl rfl⟩
+    · exact ⟨[], rfl, Or.inr (Or.inl rfl)⟩
+    · exact ⟨[], rfl, Or.inr (Or.inl rfl)⟩
+    · simp only []
+      cases r.follow with
+      | nil => exact ⟨[Ev.sendGssResponse], by simp [auxEv], Or.inl rfl⟩
+      | cons f rest =>
+        simp only []
+        cases isToken f
+        · exact ⟨[Ev.sendGssResponse], by simp [auxEv], Or.inl rfl⟩
+        · simp only [Bool.not_true, Bool.false_eq_true, if_false]
+          have hx := gssExchange_evs st r r.gss.steps rest
+          generalize (gssExchange r.gss.steps rest).2.1 = gx at hx
+          cases (gssExchange r.gss.steps rest).1
+          · exact ⟨Ev.sendGssResponse :: gx ++ [Ev.gssDelete], by simp [List.all_append, auxEv, hx], Or.inl rfl⟩
+          · exact ⟨Ev.sendGssResponse :: gx ++ [Ev.gssDelete], by simp [List.all_append, auxEv, hx], Or.inr (Or.inl rfl)⟩
+          · simp only []
+            cases r.gss.micOk
+            · exact ⟨Ev.sendGssResponse :: gx ++ [Ev.gssVerifyMic, Ev.gssDelete],
+                by simp [List.all_append, auxEv, hx], Or.inr (Or.inl (by simp))⟩
+            · exact ⟨Ev.sendGssResponse :: gx ++ [Ev.gssVerifyMic, Ev.cbGssAllow st.gen st.user r.cb, Ev.gssDelete],
+                by simp [List.all_append, auxEv, hx, h, hm], Or.inr (Or.inr ⟨trivial, by simp⟩)⟩
+
+/-- events of the keyboard-interactive / gssapi-with-mic branches -/
+def kgEv (st : St) (r : Req) (e : Ev) : Bool :=
+  auxEv st r e || (e == Ev.cbKbd st.gen st.user r.cb && st.cbs.kbd && r.method == "keyboard-interactive")
+
+/-- both branches leave the state alone and end in a hard error, a plain failure, or with the
+    outcome of their callback (KeyboardInteractiveCallback / AllowLogin) -/
+theorem kg_simple (st : St) (r : Req) (ph : Phase)
+    (h : (r.method = "keyboard-interactive" ∧ ph = kbdPhase st r) ∨ (r.method = "gssapi-with-mic" ∧ ph = gssPhase st r)) :
+    ∃ x, x.all (kgEv st r) = true ∧
+      (ph = .hard x ∨ ph = .res st x 0 .fail ∨ ph = .res st x (r.cb.split st.attempts).1 (r.cb.split st.attempts).2) := by
+  rcases h with ⟨hm, rfl⟩ | ⟨hm, rfl⟩
+  · rcases kbdPhase_cases st r with ⟨_, h⟩ | ⟨hk, x, hx, h | ⟨_, h⟩⟩
+    · exact ⟨[], rfl, Or.inr (Or.inl h)⟩
+    · refine ⟨_, ?_, Or.inr (Or.inl h)⟩
+      rw [List.all_eq_true] at hx ⊢
+      intro e he
+      simp only [List.mem_cons] at he
+      rcases he with rfl | he
+      · simp [kgEv, hk, hm]
+      · simp [kgEv, hx e he]
+    · refine ⟨_, ?_, Or.inr (Or.inr h)⟩
+      rw [List.all_eq_true] at hx ⊢
+      intro e he
+      simp only [List.mem_cons] at he
+      rcases he with rfl | he
+      · simp [kgEv, hk, hm]
+      · simp [kgEv, hx e he]
+  · obtain ⟨x, hx, h⟩ := gssPhase_cases st r hm
+    refine ⟨x, ?_, ?_⟩
+    · rw [List.all_eq_true] at hx ⊢
+      intro e he; simp [kgEv, hx e he]
+    · rcases h with h | h | ⟨_, h⟩
+      · exact Or.inl h
+      · exact Or.inr (Or.inl h)
+      · exact Or.inr (Or.inr h)
+
+/-- `methodPhase` on the two exchange methods -/
+theorem methodPhase_kg {cfg : Cfg} {st : St} {r : Req}
+    (h : r.method = "keyboard-interactive" ∨ r.method = "gssapi-with-mic") :
+    (r.method = "keyboard-interactive" ∧ methodPhase cfg st r = kbdPhase st r) ∨
+    (r.method = "gssapi-with-mic" ∧ methodPhase cfg st r = gssPhase st r) := by
+  unfold methodPhase
+  rcases h with h | h
+  · left; simp [h]
+  · right; simp [h]
 
 /-! ## one loop iteration -/
 
